@@ -14,6 +14,9 @@ clock advances, changes of the environment flag, stop) — `run c {} ops`, no bo
 import EdzedModel.FsmTimer
 import EdzedProofs.FsmTimer
 import EdzedProofs.FsmTie
+import EdzedProofs.FsmTimerTie
+import EdzedProofs.FsmRestoreTie
+import EdzedModel.Gen.TranslatedFsmTimer
 import EdzedModel.Gen.TranslatedFsm
 import EdzedModel.Gen.Constants
 
@@ -294,28 +297,28 @@ def TryPost (sM : St) (r : (TSt × Loc TEvent EvData String) × Flow ErrKind Boo
      (∃ k, r.2 = Flow.raise k ∧ st'.fail k = sM ∧ sM.failed = some k ∧
        (k = .unknownEvent → st'.failed ≠ none)))
 
-theorem translated_post_is_model (c : Cfg) (s : St) (e : TEvent) (d : EvData) (en : Bool)
+theorem translated_post_is_model (c : Cfg) (P : FsmPrims TSt TEvent EvData String TEvent Val Dur ErrKind) (hP : Agrees c P) (s : St) (e : TEvent) (d : EvData) (en : Bool)
     (hf : s.failed = none) :
-    outcomePost (Gen.TrM.ctxEvent (prims c) e d ⟨s, true, en⟩) = post c s e d := by
+    outcomePost (Gen.TrM.ctxEvent P e d ⟨s, true, en⟩) = post c s e d := by
   cases e with
   | goto q =>
     unfold Gen.TrM.ctxEvent ctxEventBody
     by_cases hq : q ∈ c.tbl.states
-    · cases hn : s.next <;> tsimp [outcomePost, post, resolve, hq, hf, hn]
-    · tsimp [outcomePost, post, resolve, hq, hf]
+    · cases hn : s.next <;> tsimp [hP.same, hP.startTimer, hP.stopTimer, outcomePost, post, resolve, hq, hf, hn]
+    · tsimp [hP.same, hP.startTimer, hP.stopTimer, outcomePost, post, resolve, hq, hf]
   | ev n =>
     by_cases hev : n ∈ c.tbl.events
     rotate_left
     · unfold Gen.TrM.ctxEvent ctxEventBody
-      tsimp [outcomePost, post, resolve, hev, hf]
+      tsimp [hP.same, hP.startTimer, hP.stopTimer, outcomePost, post, resolve, hev, hf]
     · cases hst : s.state with
       | none =>
         unfold Gen.TrM.ctxEvent ctxEventBody
-        tsimp [outcomePost, post, resolve, hev, hf, hst]
+        tsimp [hP.same, hP.startTimer, hP.stopTimer, outcomePost, post, resolve, hev, hf, hst]
       | some cur =>
         -- the target found by the model's lookup
         have key : ∀ (o : Option String), Table.lookup c.tbl n cur = o →
-            outcomePost (Gen.TrM.ctxEvent (prims c) (.ev n) d ⟨s, true, en⟩) = post c s (.ev n) d := by
+            outcomePost (Gen.TrM.ctxEvent P (.ev n) d ⟨s, true, en⟩) = post c s (.ev n) d := by
           intro o ho
           unfold Gen.TrM.ctxEvent ctxEventBody
           unfold Table.lookup at ho
@@ -325,30 +328,30 @@ theorem translated_post_is_model (c : Cfg) (s : St) (e : TEvent) (d : EvData) (e
           all_goals
             cases o with
             | none =>
-              cases ho <;> tsimp [outcomePost, post, resolve, hev, hf, hst, Table.lookup, h1, h0]
+              cases ho <;> tsimp [hP.same, hP.startTimer, hP.stopTimer, outcomePost, post, resolve, hev, hf, hst, Table.lookup, h1, h0]
             | some q =>
               cases ho <;>
               cases hu : s.out.isUndef with
               | true =>
                 cases hn : s.next <;>
-                  tsimp [outcomePost, post, resolve, hev, hf, hst, Table.lookup, h1, h0, hu, hn]
+                  tsimp [hP.same, hP.startTimer, hP.stopTimer, outcomePost, post, resolve, hev, hf, hst, Table.lookup, h1, h0, hu, hn]
               | false =>
                 cases hc : evalConds (setCtx s d) d (c.condsOf n) with
-                | none => tsimp [outcomePost, post, resolve, hev, hf, hst, Table.lookup, h1, h0, hu, hc]
+                | none => tsimp [hP.same, hP.startTimer, hP.stopTimer, outcomePost, post, resolve, hev, hf, hst, Table.lookup, h1, h0, hu, hc]
                 | some r =>
                   obtain ⟨s', ok⟩ := r
                   have kp := evalConds_keeps d (c.condsOf n) _ _ _ hc
                   cases ok <;> cases hn : s'.next <;>
-                    tsimp [outcomePost, post, resolve, hev, hf, hst, Table.lookup, h1, h0, hu, hc, hn, kp.2]
+                    tsimp [hP.same, hP.startTimer, hP.stopTimer, outcomePost, post, resolve, hev, hf, hst, Table.lookup, h1, h0, hu, hc, hn, kp.2]
         exact key _ rfl
 
 /-- one round of the translated loop = `popNext` + `enterState` of the model -/
-theorem translated_round (c : Cfg) (s : St) (loc : Loc TEvent EvData String) (q : String)
+theorem translated_round (c : Cfg) (P : FsmPrims TSt TEvent EvData String TEvent Val Dur ErrKind) (hP : Agrees c P) (s : St) (loc : Loc TEvent EvData String) (q : String)
     (hf : s.failed = none) (hq : s.next = none → loc.v3 = some q) :
-    ∃ loc', ((ctxEventLoop0 (prims c) (T s, loc)).1 =
+    ∃ loc', ((ctxEventLoop0 P (T s, loc)).1 =
         (T (enterState c (popNext s loc.v1 q).1 (popNext s loc.v1 q).2.1 (popNext s loc.v1 q).2.2), loc') ∧
       RoundEnds (enterState c (popNext s loc.v1 q).1 (popNext s loc.v1 q).2.1 (popNext s loc.v1 q).2.2)
-        (ctxEventLoop0 (prims c) (T s, loc)).2)
+        (ctxEventLoop0 P (T s, loc)).2)
       ∧ loc'.v1 = (popNext s loc.v1 q).2.1 ∧ loc'.v3 = some (popNext s loc.v1 q).2.2 := by
   unfold ctxEventLoop0
   cases hn : s.next with
@@ -358,24 +361,24 @@ theorem translated_round (c : Cfg) (s : St) (loc : Loc TEvent EvData String) (q 
     simp only at hq'
     subst hq'
     refine ⟨⟨v0, v1, v2, some q⟩, ?_, by simp [popNext, hn], by simp [popNext, hn]⟩
-    tsimp [T, hn, popNext, enterState, RoundEnds]
-    round_tail (runEnter c (s.enter q) q) q (v1.dur)
+    tsimp [hP.same, hP.startTimer, hP.stopTimer, T, hn, popNext, enterState, RoundEnds]
+    round_tail hP (runEnter c (s.enter q) q) q (v1.dur)
   | some x =>
     obtain ⟨e', d', q'⟩ := x
     refine ⟨{ loc with v0 := e', v1 := d', v3 := some q' }, ?_, by simp [popNext, hn], by simp [popNext, hn]⟩
     cases hs : s.state with
     | none =>
-      tsimp [T, hn, hf, hs, popNext, enterState, exitCur, RoundEnds]
-      round_tail (runEnter c ((setCtx (s.setNextEv none) d').enter q') q') q' (d'.dur)
+      tsimp [hP.same, hP.startTimer, hP.stopTimer, T, hn, hf, hs, popNext, enterState, exitCur, RoundEnds]
+      round_tail hP (runEnter c ((setCtx (s.setNextEv none) d').enter q') q') q' (d'.dur)
     | some cur =>
-      tsimp [T, hn, hf, hs, popNext, enterState, exitCur, RoundEnds]
-      round_tail (runEnter c (((setCtx (s.setNextEv none) d').emit (Entry.exit cur d')).enter q') q') q' (d'.dur)
+      tsimp [hP.same, hP.startTimer, hP.stopTimer, T, hn, hf, hs, popNext, enterState, exitCur, RoundEnds]
+      round_tail hP (runEnter c (((setCtx (s.setNextEv none) d').emit (Entry.exit cur d')).enter q') q') q' (d'.dur)
 
 /-- the translated `for _ in range(chainlimit): … else: raise …` = the loop of the model -/
-theorem translated_loop (c : Cfg) : ∀ (n : Nat) (s : St) (loc : Loc TEvent EvData String) (q : String),
+theorem translated_loop (c : Cfg) (P : FsmPrims TSt TEvent EvData String TEvent Val Dur ErrKind) (hP : Agrees c P) : ∀ (n : Nat) (s : St) (loc : Loc TEvent EvData String) (q : String),
     s.failed = none → (s.next = none → loc.v3 = some q) →
     ∃ loc' st' fl,
-      forRange (ctxEventLoop0 (prims c)) (Gen.TrM.raise ((prims c).exc "EdzedCircuitError")) n (T s, loc)
+      forRange (ctxEventLoop0 P) (Gen.TrM.raise (P.exc "EdzedCircuitError")) n (T s, loc)
         = ((T st', loc'), fl) ∧
       ((loopB c n s loc.v1 q = (st', true) ∧ fl = Flow.next ∧ st'.failed = none) ∨
        (∃ k, fl = Flow.raise k ∧ loopB c n s loc.v1 q = (st'.fail k, false) ∧ (st'.fail k).failed = some k ∧
@@ -384,14 +387,14 @@ theorem translated_loop (c : Cfg) : ∀ (n : Nat) (s : St) (loc : Loc TEvent EvD
   induction n with
   | zero =>
     intro s loc q hf _
-    exact ⟨loc, s, Flow.raise .circuitError, by simp [forRange, Gen.TrM.raise, prims_exc, excOf],
+    exact ⟨loc, s, Flow.raise .circuitError, by simp [forRange, Gen.TrM.raise, hP.same, prims_exc, excOf],
       .inr ⟨.circuitError, rfl, by simp [loopB], by simp [St.fail, hf], by simp⟩⟩
   | succ n ih =>
     intro s loc q hf hq
-    obtain ⟨loc1, ⟨hst, hends⟩, hv1, hv3⟩ := translated_round c s loc q hf hq
+    obtain ⟨loc1, ⟨hst, hends⟩, hv1, hv3⟩ := translated_round c P hP s loc q hf hq
     unfold forRange loopB
     dsimp only
-    generalize ctxEventLoop0 (prims c) (T s, loc) = r at hst hends ⊢
+    generalize ctxEventLoop0 P (T s, loc) = r at hst hends ⊢
     obtain ⟨sl1, fl1⟩ := r
     simp only at hst hends
     subst hst
@@ -417,27 +420,28 @@ theorem translated_loop (c : Cfg) : ∀ (n : Nat) (s : St) (loc : Loc TEvent EvD
         subst hends
         exact ⟨loc1, s2, Flow.next, by simp, .inl ⟨by simp [hf2, hn2], rfl, hf2⟩⟩
 
-theorem translated_try (c : Cfg) (s1 : St) (loc : Loc TEvent EvData String) (q : String)
+theorem translated_try (c : Cfg) (P : FsmPrims TSt TEvent EvData String TEvent Val Dur ErrKind) (hP : Agrees c P) (s1 : St) (loc : Loc TEvent EvData String) (q : String)
     (hf : s1.failed = none) (hn : s1.next = none) (hq : loc.v3 = some q)
     (hinit : s1.out.isUndef = false → s1.state ≠ none) :
-    TryPost (enterLoop c c.tbl.chainLimit (leave s1) loc.v1 q) (ctxEventTry0 (prims c) (T s1, loc)) := by
+    TryPost (enterLoop c c.tbl.chainLimit (leave s1) loc.v1 q) (ctxEventTry0 P (T s1, loc)) := by
   unfold ctxEventTry0
   -- exit action, on_exit events, _stop_timer
   refine seq_elim (sl1 := (T (leave s1), loc)) ?_ ?_
   · cases hu : s1.out.isUndef with
-    | true => tsimp [T, leave, hu]
+    | true => tsimp [hP.same, hP.startTimer, hP.stopTimer, T, leave, hu]
     | false =>
       cases hs : s1.state with
       | none => exact absurd hs (hinit hu)
-      | some cur => tsimp [T, leave, hu, hs, hf, (stopTimer_fields _).1]
+      | some cur => tsimp [hP.same, hP.startTimer, hP.stopTimer, T, leave, hu, hs, hf, (stopTimer_fields _).1]
   -- assert self._next_event is None
   refine seq_elim (sl1 := (T (leave s1), loc)) ?_ ?_
-  · tsimp [T, (leave_fields s1).2, hn]
+  · tsimp [hP.same, hP.startTimer, hP.stopTimer, T, (leave_fields s1).2, hn]
   -- the loop
-  obtain ⟨loc', st', fl, hloop, hres⟩ := translated_loop c c.tbl.chainLimit (leave s1) loc q
+  obtain ⟨loc', st', fl, hloop, hres⟩ := translated_loop c P hP c.tbl.chainLimit (leave s1) loc q
     (by rw [(leave_fields s1).1]; exact hf) (fun _ => hq)
-  have hforN : ∀ (body orelse : Stmt (TSt × Loc TEvent EvData String) ErrKind Bool), forN (fun sl => (prims c).chainLimit sl.1) body orelse (T (leave s1), loc)
-      = forRange body orelse c.tbl.chainLimit (T (leave s1), loc) := fun _ _ => rfl
+  have hforN : ∀ (body orelse : Stmt (TSt × Loc TEvent EvData String) ErrKind Bool), forN (fun sl => P.chainLimit sl.1) body orelse (T (leave s1), loc)
+      = forRange body orelse c.tbl.chainLimit (T (leave s1), loc) :=
+    fun _ _ => by simp [forN, hP.same, prims_chainLimit]
   rw [enterLoop_eq_loopB]
   rcases hres with ⟨hB, hfl, hnf⟩ | ⟨k, hfl, hB, hk, hu⟩
   · -- the loop ended with `break`: output and on_enter events
@@ -448,7 +452,7 @@ theorem translated_try (c : Cfg) (s1 : St) (loc : Loc TEvent EvData String) (q :
     cases hco : calcOutput c st' with
     | none =>
       dsimp only
-      refine ⟨loc', st', by tsimp [T, hco], .inr ⟨.keyError, by tsimp [T, hco], rfl, by simp [St.fail, hnf], by simp⟩⟩
+      refine ⟨loc', st', by tsimp [hP.same, hP.startTimer, hP.stopTimer, T, hco], .inr ⟨.keyError, by tsimp [hP.same, hP.startTimer, hP.stopTimer, T, hco], rfl, by simp [St.fail, hnf], by simp⟩⟩
     | some v =>
       have hfin : (sendOnEnter (setOut st' v)).failed = none := by
         rw [sendOnEnter_failed, setOut_failed]; exact hnf
@@ -456,29 +460,29 @@ theorem translated_try (c : Cfg) (s1 : St) (loc : Loc TEvent EvData String) (q :
       cases huv : v.isUndef with
       | true =>
         rw [setOut_undef st' v huv] at hfin ⊢
-        exact ⟨loc', _, by tsimp [T, hco, huv, hfin, hnf], .inl ⟨by tsimp [T, hco, huv, hfin, hnf], rfl, hfin⟩⟩
+        exact ⟨loc', _, by tsimp [hP.same, hP.startTimer, hP.stopTimer, T, hco, huv, hfin, hnf], .inl ⟨by tsimp [hP.same, hP.startTimer, hP.stopTimer, T, hco, huv, hfin, hnf], rfl, hfin⟩⟩
       | false =>
         have h1 : (setOut st' v).failed = none := by rw [setOut_failed]; exact hnf
-        exact ⟨loc', _, by tsimp [T, hco, huv, hfin, h1], .inl ⟨by tsimp [T, hco, huv, hfin, h1], rfl, hfin⟩⟩
+        exact ⟨loc', _, by tsimp [hP.same, hP.startTimer, hP.stopTimer, T, hco, huv, hfin, h1], .inl ⟨by tsimp [hP.same, hP.startTimer, hP.stopTimer, T, hco, huv, hfin, h1], rfl, hfin⟩⟩
   · subst hfl
     rw [seq_stop (sl1 := (T st', loc')) (f := Flow.raise k) (by rw [hforN]; exact hloop) (by simp), hB]
     exact ⟨loc', st', rfl, .inr ⟨k, rfl, rfl, hk, hu⟩⟩
 
 /-- **the tie**: `FSM._ctx_event`, as translated from the current source, run on the model's
     operations for an event arriving from outside computes exactly the model's `ctxEvent` -/
-theorem translated_ctx_event_is_model (c : Cfg) (s : St) (e : TEvent) (d : EvData)
+theorem translated_ctx_event_is_model (c : Cfg) (P : FsmPrims TSt TEvent EvData String TEvent Val Dur ErrKind) (hP : Agrees c P) (s : St) (e : TEvent) (d : EvData)
     (hf : s.failed = none) (hn : s.next = none) (hinit : s.out.isUndef = false → s.state ≠ none) :
-    outcome (Gen.TrM.ctxEvent (prims c) e d ⟨s, false, false⟩) = FsmTimer.ctxEvent c s e d := by
+    outcome (Gen.TrM.ctxEvent P e d ⟨s, false, false⟩) = FsmTimer.ctxEvent c s e d := by
   -- what happens once the target state `q` is known (state `s1`)
   have tail : ∀ (s1 : St) (q : String), s1.failed = none → s1.next = none →
       (s1.out.isUndef = false → s1.state ≠ none) →
       outcome
-        ((ctxEventTry0 (prims c) (T s1, (⟨e, d, d, some q⟩ : Loc TEvent EvData String))).1.1,
-         (ctxEventTry0 (prims c) (T s1, (⟨e, d, d, some q⟩ : Loc TEvent EvData String))).2)
+        ((ctxEventTry0 P (T s1, (⟨e, d, d, some q⟩ : Loc TEvent EvData String))).1.1,
+         (ctxEventTry0 P (T s1, (⟨e, d, d, some q⟩ : Loc TEvent EvData String))).2)
       = resOf (enterLoop c c.tbl.chainLimit (leave s1) d q) := by
     intro s1 q hf1 hn1 hi1
-    obtain ⟨loc', st', h1, hd⟩ := translated_try c s1 ⟨e, d, d, some q⟩ q hf1 hn1 rfl hi1
-    generalize ctxEventTry0 (prims c) (T s1, (⟨e, d, d, some q⟩ : Loc TEvent EvData String)) = r at h1 hd ⊢
+    obtain ⟨loc', st', h1, hd⟩ := translated_try c P hP s1 ⟨e, d, d, some q⟩ q hf1 hn1 rfl hi1
+    generalize ctxEventTry0 P (T s1, (⟨e, d, d, some q⟩ : Loc TEvent EvData String)) = r at h1 hd ⊢
     obtain ⟨⟨t', l'⟩, fl⟩ := r
     simp only [Prod.mk.injEq] at h1
     obtain ⟨rfl, rfl⟩ := h1
@@ -495,21 +499,21 @@ theorem translated_ctx_event_is_model (c : Cfg) (s : St) (e : TEvent) (d : EvDat
     unfold Gen.TrM.ctxEvent ctxEventBody
     by_cases hq : q ∈ c.tbl.states
     · rw [ctxEvent_target (s1 := setCtx s d) (q := q) (by simp [resolve, hq])]
-      tsimp [outcome, hq, hf, hn]
+      tsimp [hP.same, hP.startTimer, hP.stopTimer, outcome, hq, hf, hn]
       simpa [outcome, T] using tail (setCtx s d) q hf hn hinit
-    · tsimp [outcome, FsmTimer.ctxEvent, resolve, hq, hf]
+    · tsimp [hP.same, hP.startTimer, hP.stopTimer, outcome, FsmTimer.ctxEvent, resolve, hq, hf]
   | ev n =>
     by_cases hev : n ∈ c.tbl.events
     rotate_left
     · unfold Gen.TrM.ctxEvent ctxEventBody
-      tsimp [outcome, FsmTimer.ctxEvent, resolve, hev, hf]
+      tsimp [hP.same, hP.startTimer, hP.stopTimer, outcome, FsmTimer.ctxEvent, resolve, hev, hf]
     · cases hst : s.state with
       | none =>
         unfold Gen.TrM.ctxEvent ctxEventBody
-        tsimp [outcome, FsmTimer.ctxEvent, resolve, hev, hf, hst]
+        tsimp [hP.same, hP.startTimer, hP.stopTimer, outcome, FsmTimer.ctxEvent, resolve, hev, hf, hst]
       | some cur =>
         have key : ∀ (o : Option String), Table.lookup c.tbl n cur = o →
-            outcome (Gen.TrM.ctxEvent (prims c) (.ev n) d ⟨s, false, false⟩)
+            outcome (Gen.TrM.ctxEvent P (.ev n) d ⟨s, false, false⟩)
               = FsmTimer.ctxEvent c s (.ev n) d := by
           intro o ho
           unfold Table.lookup at ho
@@ -520,7 +524,7 @@ theorem translated_ctx_event_is_model (c : Cfg) (s : St) (e : TEvent) (d : EvDat
             cases o with
             | none =>
               unfold Gen.TrM.ctxEvent ctxEventBody
-              cases ho <;> tsimp [outcome, FsmTimer.ctxEvent, resolve, hev, hf, hst, Table.lookup, h1, h0]
+              cases ho <;> tsimp [hP.same, hP.startTimer, hP.stopTimer, outcome, FsmTimer.ctxEvent, resolve, hev, hf, hst, Table.lookup, h1, h0]
             | some q =>
               cases ho <;>
               cases hu : s.out.isUndef with
@@ -528,13 +532,13 @@ theorem translated_ctx_event_is_model (c : Cfg) (s : St) (e : TEvent) (d : EvDat
                 rw [ctxEvent_target (s1 := setCtx s d) (q := q)
                   (by simp [resolve, hev, setCtx_proj, hst, Table.lookup, h1, h0, hu])]
                 unfold Gen.TrM.ctxEvent ctxEventBody
-                tsimp [outcome, hev, hf, hst, h1, h0, hu, hn]
+                tsimp [hP.same, hP.startTimer, hP.stopTimer, outcome, hev, hf, hst, h1, h0, hu, hn]
                 simpa [outcome, T] using tail (setCtx s d) q hf hn hinit
               | false =>
                 cases hc : evalConds (setCtx s d) d (c.condsOf n) with
                 | none =>
                   unfold Gen.TrM.ctxEvent ctxEventBody
-                  tsimp [outcome, FsmTimer.ctxEvent, resolve, hev, hf, hst, Table.lookup, h1, h0, hu, hc]
+                  tsimp [hP.same, hP.startTimer, hP.stopTimer, outcome, FsmTimer.ctxEvent, resolve, hev, hf, hst, Table.lookup, h1, h0, hu, hc]
                 | some r =>
                   obtain ⟨s', ok⟩ := r
                   have kp := evalConds_keeps d (c.condsOf n) _ _ _ hc
@@ -542,7 +546,7 @@ theorem translated_ctx_event_is_model (c : Cfg) (s : St) (e : TEvent) (d : EvDat
                   cases ok with
                   | false =>
                     unfold Gen.TrM.ctxEvent ctxEventBody
-                    tsimp [outcome, FsmTimer.ctxEvent, resolve, hev, hf, hst, Table.lookup, h1, h0, hu, hc, kp.2]
+                    tsimp [hP.same, hP.startTimer, hP.stopTimer, outcome, FsmTimer.ctxEvent, resolve, hev, hf, hst, Table.lookup, h1, h0, hu, hc, kp.2]
                   | true =>
                     have hf' : s'.failed = none := by rw [kp.2]; exact hf
                     have hn' : s'.next = none := by rw [kn.1]; exact hn
@@ -551,7 +555,7 @@ theorem translated_ctx_event_is_model (c : Cfg) (s : St) (e : TEvent) (d : EvDat
                     rw [ctxEvent_target (s1 := s') (q := q)
                       (by simp [resolve, hev, setCtx_proj, hst, Table.lookup, h1, h0, hu, hc])]
                     unfold Gen.TrM.ctxEvent ctxEventBody
-                    tsimp [outcome, hev, hf, hst, h1, h0, hu, hc, hf', hn']
+                    tsimp [hP.same, hP.startTimer, hP.stopTimer, outcome, hev, hf, hst, h1, h0, hu, hc, hf', hn']
                     simpa [outcome, T] using tail s' q hf' hn' hi'
         exact key _ rfl
 
@@ -591,5 +595,237 @@ theorem tie_hypotheses_hold_when_reachable (c : Cfg) (ops : List Op)
     (hf : (run c {} ops).failed = none) :
     (run c {} ops).next = none ∧ ((run c {} ops).out.isUndef = false → (run c {} ops).state ≠ none) :=
   quiet_run c ops {} (fun _ => ⟨rfl, fun h => by simp [Val.isUndef] at h⟩) hf
+
+end Edzed.TrTie
+
+/-! ## Tie by translation: the timer methods of `fsm.FSM`
+
+`Gen.TrT.setTimer`, `timerExpired`, `startTimer`, `stopTimer`, `stop`, `start`, `getState`, `initDuration` are the
+Lean programs that tools/py2lean_fsmtimer.py generates from the CURRENT source of `_set_timer`,
+`_timer_expired`, `_start_timer`, `_stop_timer`, `stop`, `start`, `get_state` and of the `t_STATE` statement
+of `__init__`.  Run on the model's meaning of the event loop (`tprims`, EdzedProofs/FsmTimerTie.lean) they
+compute exactly the model's `setTimer`, `fire`, `startTimer`, `stopTimer`, `stop`, `getState` and the table
+`Cfg.instDur`.  With them the primitives `_start_timer` / `_stop_timer` of the `_ctx_event` tie above are no
+assumptions any more: `translated_fsmtimer_ctx_event_with_translated_timers`. -/
+
+namespace Edzed.TrTie
+open Edzed.FsmTimer Edzed.Gen.TrM Edzed.Gen.TrT
+
+theorem translated_fsmtimer_set_timer_is_model (c : Cfg) (env : TEnv) (n : Int) (tev : TEvent) (t : TSt) :
+    Gen.TrT.setTimer (tprims c env) (.us n) tev t = (t.map (FsmTimer.setTimer · n.toNat tev), .ok ()) := by
+  unfold Gen.TrT.setTimer setTimerBody
+  cases hs : t.st.stopped <;>
+    ttsimp [FsmTimer.setTimer, hs, armHandle, newHandle, St.emit]
+
+theorem translated_fsmtimer_stop_timer_is_model (c : Cfg) (env : TEnv) (t : TSt) :
+    Gen.TrT.stopTimer (tprims c env) t = (t.map FsmTimer.stopTimer, .ok ()) := by
+  unfold Gen.TrT.stopTimer stopTimerBody
+  cases ha : t.st.active with
+  | none => ttsimp [FsmTimer.stopTimer, ha]
+  | some id =>
+    cases hl : handleLive t.st id <;> ttsimp [FsmTimer.stopTimer, ha, hl, cancelHandle, St.emit]
+    have := map_cancel_of_not_live t.st id hl
+    simp only [beq_iff_eq] at this
+    exact this.symm
+
+theorem translated_fsmtimer_start_timer_is_model (c : Cfg) (env : TEnv) (hin : env.inside = true)
+    (item : Dur) (tev : TEvent) (t : TSt) (q : String)
+    (hq : t.st.state = some q) (hf : t.st.failed = none) :
+    failOnError (Gen.TrT.startTimer (tprims c env) item tev t)
+      = lift (fun s => FsmTimer.startTimer c s q tev item) t := by
+  unfold Gen.TrT.startTimer startTimerBody
+  cases item with
+  | none =>
+    cases hd : clamp (c.instDur q) with
+    | none => ttsimp [hin, failOnError, FsmTimer.startTimer, effDur, hq, hf, hd, St.fail]
+    | inf => ttsimp [hin, failOnError, FsmTimer.startTimer, effDur, hq, hf, hd]
+    | bad => ttsimp [hin, failOnError, FsmTimer.startTimer, effDur, hq, hf, hd, St.fail]
+    | us n =>
+      by_cases hn : n ≤ 0
+      · ttsimp [hin, failOnError, FsmTimer.startTimer, effDur, hq, hf, hd, hn, cmpInt]
+        generalize (eventRec c t.st tev {}).1 = s1
+        cases hf1 : s1.failed with
+        | none => simp
+        | some k => simp [fail_of_failed s1 k hf1]
+      · have hfs : (FsmTimer.setTimer t.st n.toNat tev).failed = none := by
+          rw [(setTimer_fields t.st n.toNat tev).2.2.2.2.2.1]; exact hf
+        ttsimp [hin, failOnError, FsmTimer.startTimer, effDur, hq, hf, hd, hn, cmpInt,
+          translated_fsmtimer_set_timer_is_model, hfs]
+  | inf => ttsimp [hin, failOnError, FsmTimer.startTimer, effDur, clamp, hq, hf]
+  | bad => ttsimp [hin, failOnError, FsmTimer.startTimer, effDur, clamp, hq, hf, St.fail]
+  | us n =>
+    by_cases hn0 : n < 0
+    · ttsimp [hin, failOnError, FsmTimer.startTimer, effDur, clamp, hq, hf, hn0, cmpInt]
+      generalize (eventRec c t.st tev {}).1 = s1
+      cases hf1 : s1.failed with
+      | none => simp
+      | some k => simp [fail_of_failed s1 k hf1]
+    · by_cases hn : n ≤ 0
+      · ttsimp [hin, failOnError, FsmTimer.startTimer, effDur, clamp, hq, hf, hn0, hn, cmpInt]
+        generalize (eventRec c t.st tev {}).1 = s1
+        cases hf1 : s1.failed with
+        | none => simp
+        | some k => simp [fail_of_failed s1 k hf1]
+      · have hfs : (FsmTimer.setTimer t.st n.toNat tev).failed = none := by
+          rw [(setTimer_fields t.st n.toNat tev).2.2.2.2.2.1]; exact hf
+        ttsimp [hin, failOnError, FsmTimer.startTimer, effDur, clamp, hq, hf, hn0, hn, cmpInt,
+          translated_fsmtimer_set_timer_is_model, hfs]
+
+theorem translated_fsmtimer_stop_is_model (c : Cfg) (env : TEnv) (t : TSt) :
+    Gen.TrT.stop (tprims c env) t =
+      (t.map FsmTimer.stop, if env.superFails then .error .fuel else .ok ()) := by
+  unfold Gen.TrT.stop stopBody
+  cases hs : env.superFails <;> ttsimp [translated_fsmtimer_stop_timer_is_model, FsmTimer.stop, hs]
+
+/-- `start()`: the timers are allowed only after the base classes have started -/
+theorem translated_fsmtimer_start_enables_timers (c : Cfg) (env : TEnv) (t : TSt) :
+    Gen.TrT.start (tprims c env) t =
+      if env.superFails then (t, .error .fuel)
+      else (t.map (fun s => { s with stopped := false }), .ok ()) := by
+  unfold Gen.TrT.start startBody
+  cases hs : env.superFails <;> ttsimp [hs]
+
+theorem translated_fsmtimer_timer_expired_is_model (c : Cfg) (s : St) (h : Handle) (a e : Bool) :
+    (Gen.TrT.timerExpired (tprims c { inside := false }) h.ev ⟨loopPop s h, a, e⟩).1.st = fire c s h := by
+  unfold Gen.TrT.timerExpired timerExpiredBody
+  ttsimp [fire, loopPop, popTimer]
+  generalize (deliver c _ h.ev {}).1 = s1
+  cases s1.failed <;> simp
+
+theorem translated_fsmtimer_get_state_is_model (c : Cfg) (env : TEnv) (t : TSt) :
+    Gen.TrT.getState (tprims c env) t =
+      (t, match FsmTimer.getState t.st with
+          | none => .error .invalidState
+          | some (q, tm) => .ok (some q, tm.map (· + env.wall), t.st.input)) := by
+  unfold Gen.TrT.getState getStateBody
+  cases hs : t.st.state with
+  | none => ttsimp [FsmTimer.getState, hs]
+  | some q =>
+    cases ha : t.st.active with
+    | none => ttsimp [FsmTimer.getState, hs, ha]
+    | some id =>
+      cases hl : liveHandle t.st id <;> ttsimp [FsmTimer.getState, hs, ha, hl, handleLive]
+
+/-- `FSM.__init__` builds the instance table of durations that the model calls `Cfg.instDur`: class default,
+    overridden by a `t_STATE` argument that is not None (after `time_period`) -/
+theorem translated_fsmtimer_init_duration_is_model (c : Cfg)
+    (hnd : (c.tDur.map (·.1)).Nodup)
+    (hall : ∀ p ∈ c.tDur, p.2 ≠ Dur.bad ∧ (c.tbl.timedOf p.1).isSome) :
+    Gen.TrT.initDuration excOf timePeriodD (fun d => decide (d = Dur.none)) tblHas tblSet
+      (classDurations c) c.tDur = .ok (instTable c) := by
+  have key : ∀ T : DurTbl, (∀ k, T k = (match c.tDur.lookup k with
+                  | some Dur.none => classDurations c k
+                  | some d => if (classDurations c k).isSome then some (clamp d) else none
+                  | none => classDurations c k)) → T = instTable c := by
+    intro T hT
+    funext k
+    rw [hT k]
+    unfold instTable Cfg.instDur classDurations
+    cases ht : c.tbl.timedOf k with
+    | none => cases hl : c.tDur.lookup k with
+      | none => simp
+      | some d => cases d <;> simp
+    | some x => cases hl : c.tDur.lookup k with
+      | none => simp
+      | some d => cases d <;> simp
+  have htab : tableAfter c.tDur (classDurations c) = instTable c := key _ (fun k => rfl)
+  unfold Gen.TrT.initDuration
+  split
+  · refine (initDuration_fold _ ?_ c.tDur (classDurations c) hnd
+      (fun p hp => ⟨(hall p hp).1, by unfold classDurations; simpa using (hall p hp).2⟩)).trans (by rw [htab])
+    intro T0 q0 d0 hb hq
+    cases d0 with
+    | bad => exact absurd rfl hb
+    | none =>
+      simp only [tblHas, hq, timePeriodD, clamp]
+      simp
+      funext k; split
+      · next h => rw [h]
+      · rfl
+    | inf => simp [tblHas, hq, timePeriodD, clamp]; rfl
+    | us n => simp [tblHas, hq, timePeriodD, clamp]; rfl
+  · next he =>
+    have : c.tDur = [] := by simpa using he
+    rw [← htab, this]; rfl
+
+/-- the primitives of `_ctx_event` with `_start_timer` and `_stop_timer` replaced by their TRANSLATIONS
+    (an exception leaving `_start_timer` marks the simulation as failed, like every handler error) -/
+def primsT (c : Cfg) : FsmPrims TSt TEvent EvData String TEvent Val Dur ErrKind :=
+  { prims c with
+    startTimer := fun item tev t => failOnError (Gen.TrT.startTimer (tprims c { inside := true }) item tev t)
+    stopTimer := fun t => Gen.TrT.stopTimer (tprims c { inside := true }) t }
+
+theorem translated_fsmtimer_prims_agree (c : Cfg) : Agrees c (primsT c) := by
+  refine ⟨⟨rfl, rfl, rfl, rfl, rfl, rfl, rfl, rfl, rfl, rfl, rfl, rfl, rfl, rfl, rfl, rfl, rfl, rfl, rfl, rfl,
+    rfl, rfl, rfl, rfl, rfl, rfl, rfl, rfl⟩, ?_, ?_⟩
+  · intro item tev t _ hf hs
+    cases hq : t.st.state with
+    | none => rw [hq] at hs; cases hs
+    | some q =>
+      show failOnError (Gen.TrT.startTimer (tprims c { inside := true }) item tev t) = (prims c).startTimer item tev t
+      rw [translated_fsmtimer_start_timer_is_model c { inside := true } rfl item tev t q hq hf]
+      simp [prims_startTimer, lift, TSt.map, hq]
+  · intro t hf
+    show Gen.TrT.stopTimer (tprims c { inside := true }) t = (prims c).stopTimer t
+    rw [translated_fsmtimer_stop_timer_is_model]
+    simp [prims_stopTimer, lift, (stopTimer_fields t.st).1, hf]
+
+/-- **the composed tie**: `_ctx_event` as translated, calling the TRANSLATED `_start_timer` / `_stop_timer`
+    (which call the translated `_set_timer`), computes the model's `ctxEvent` -/
+theorem translated_fsmtimer_ctx_event_with_translated_timers (c : Cfg) (s : St) (e : TEvent) (d : EvData)
+    (hf : s.failed = none) (hn : s.next = none) (hinit : s.out.isUndef = false → s.state ≠ none) :
+    outcome (Gen.TrM.ctxEvent (primsT c) e d ⟨s, false, false⟩) = FsmTimer.ctxEvent c s e d :=
+  translated_ctx_event_is_model c (primsT c) (translated_fsmtimer_prims_agree c) s e d hf hn hinit
+
+/-- … and the recursive call -/
+theorem translated_fsmtimer_post_with_translated_timers (c : Cfg) (s : St) (e : TEvent) (d : EvData) (en : Bool)
+    (hf : s.failed = none) :
+    outcomePost (Gen.TrM.ctxEvent (primsT c) e d ⟨s, true, en⟩) = post c s e d :=
+  translated_post_is_model c (primsT c) (translated_fsmtimer_prims_agree c) s e d en hf
+
+/-- non-vacuity: the chained, timed transition of the example above through the translated `_ctx_event`
+    calling the translated `_start_timer` → `_set_timer`: one handle armed from the chained event's item -/
+example :
+    outcome (Gen.TrM.ctxEvent (primsT exCfg) (.ev "go") { dur := .us 3 } ⟨exState, false, false⟩)
+      = FsmTimer.ctxEvent exCfg exState (.ev "go") { dur := .us 3 } ∧
+    (live (outcome (Gen.TrM.ctxEvent (primsT exCfg) (.ev "go") { dur := .us 3 } ⟨exState, false, false⟩)).1).map
+      (fun h => (h.when, h.ev)) = [(70000, .ev "back")] := by
+  decide +kernel
+
+/-- `_restore_state` (C06's subject, the same translated program): run on the meaning the primitives have in
+    the model of persistent state it computes exactly `Persist.restore` for the FSM kind -- unknown state
+    refused, remaining time = expiry - now, an expired state ignored (nothing restored), "cannot set a timer
+    for a not timed state", the timer re-armed for the saved expiry by the translated `_set_timer`, then state,
+    sdata and output (assuming `calc_output` does not return UNDEF for the saved state) -/
+theorem translated_fsmtimer_restore_is_persist_model (c : Persist.FsmCls) (cal : Val → Option Bool)
+    (now : Nat) (st : String) (exp : Option Nat) (sd : Data)
+    (hout : ∀ o, c.calcOut st sd = some o → o.isUndef = false) :
+    restoreOutcome (Gen.TrT.restoreState (rprims c now) (st, exp, sd) {})
+      = Persist.restore (.fsm c) cal now (.fsm st exp sd) := by
+  unfold Gen.TrT.restoreState restoreStateBody
+  by_cases hst : st ∈ c.states
+  rotate_left
+  · rtsimp [restoreOutcome, Persist.restore, hst]
+  cases hco : c.calcOut st sd with
+  | none =>
+    cases exp with
+    | none => rtsimp [restoreOutcome, Persist.restore, hst, hco]
+    | some t =>
+      have hz : ((t : Int) - (now : Int) ≤ 0) ↔ t ≤ now := by omega
+      by_cases hle : t ≤ now
+      · cases hte : c.timedEv st <;> rtsimp [restoreOutcome, Persist.restore, hst, hco, hz, hle, hte]
+      · have htn : now + ((t : Int) - (now : Int)).toNat = t := by omega
+        cases hte : c.timedEv st <;> rtsimp [restoreOutcome, Persist.restore, hst, hco, hz, hle, hte, htn]
+  | some o =>
+    have ho := hout o hco
+    cases exp with
+    | none => rtsimp [restoreOutcome, Persist.restore, hst, hco, ho]
+    | some t =>
+      have hz : ((t : Int) - (now : Int) ≤ 0) ↔ t ≤ now := by omega
+      by_cases hle : t ≤ now
+      · cases hte : c.timedEv st <;> rtsimp [restoreOutcome, Persist.restore, hst, hco, hz, hle, hte, ho]
+      · have htn : now + ((t : Int) - (now : Int)).toNat = t := by omega
+        cases hte : c.timedEv st <;> rtsimp [restoreOutcome, Persist.restore, hst, hco, hz, hle, hte, ho, htn]
+        exact Nat.add_sub_of_le (Nat.le_of_lt (Nat.lt_of_not_le hle))
 
 end Edzed.TrTie
